@@ -8,6 +8,7 @@ import (
 	"go/types"
 	"os"
 	"sort"
+	"strings"
 
 	"golang.org/x/tools/go/ssa"
 )
@@ -16,7 +17,7 @@ func init() {
 	register(&propDef{
 		ID: "C11",
 		Meta: propMeta{
-			Explanation: "Each rule recognises one definite-defect pattern on the resolved program and nothing else: (R11a) an allocation (make, Buffer.Grow) whose size is data-dependent on an integer decoded from input (binary.Read / ByteOrder.UintN / xml|asn1|json|plist Unmarshal destinations, strconv), that is not width-bounded (<=16-bit source, masked, or compared equal to such a value) and has NO ordering comparison on any path from function entry to the allocation — through struct fields (field-based, a field stored only from validated values is clean) and through helper parameters (lifted to call sites, depth 3); a shift by a decoded amount is always unbounded; (R11b) a division/modulus whose divisor is such a value with no comparison at all on the way; (R11c) every `go` statement reachable from the server's /sign handler either installs a deferred recover() or cannot reach a site reported by R11a/b/d/e (the HTTP recovery middleware only covers the request goroutine); (R11d) a loop that follows a chain through a table read from the file (v = T[v], or v read from a sector fetched by v) and whose only exits are the end-of-chain sentinel test and I/O errors — a cyclic chain never terminates; (R11e) dereference of a missed map lookup (shared with C04). (R11j) every index and slice bound computed from a field of a record decoded from the input (binary.Read, binary.Uint32 of input bytes, strconv) is compared with a bounding value - a positive constant, a length, a value that was not itself decoded - on every path before it is used; a comparison with zero, with a negative sentinel or with another decoded value bounds nothing; a buffer created with a size computed from the same value, a masked or reduced position and a record field some function of the module bounds when it decodes it are accepted; for fixed-size arrays only a constant up to the array length counts and a loop counter is as large as the bound it runs to; (R11k) a slice is not indexed with the range position of another list that was decoded from the input (XML, JSON, ASN.1, binary) unless a comparison involving the indexed slice's own length dominates, or the slice was made with that list's length; (R11f) code reachable from an unrecovered helper goroutine of the /sign handler never indexes a string or slice at a constant position without a length test; (R11h) a goroutine that consumes the read end of an io.Pipe closes or drains it on every path to its end (otherwise a reader that stops early leaves the writer blocked: a hang); (R11i) a slice of pointers allocated with a length and filled conditionally is never returned with its nil tail.",
+			Explanation: "Each rule recognises one definite-defect pattern on the resolved program and nothing else: (R11a) an allocation (make, Buffer.Grow) whose size is data-dependent on an integer decoded from input (binary.Read / ByteOrder.UintN / xml|asn1|json|plist Unmarshal destinations, strconv), that is not width-bounded (<=16-bit source, masked, or compared equal to such a value) and has NO ordering comparison on any path from function entry to the allocation — through struct fields (field-based, a field stored only from validated values is clean) and through helper parameters (lifted to call sites, depth 3); a shift by a decoded amount is always unbounded; (R11b) a division/modulus whose divisor is such a value with no comparison at all on the way; (R11c) every `go` statement reachable from the server's /sign handler either installs a deferred recover() or cannot reach a site reported by R11a/b/d/e (the HTTP recovery middleware only covers the request goroutine); (R11d) a loop that follows a chain through a table read from the file (v = T[v], or v read from a sector fetched by v) and whose only exits are the end-of-chain sentinel test and I/O errors — a cyclic chain never terminates; (R11e) dereference of a missed map lookup (shared with C04). (R11j) every index and slice bound computed from a field of a record decoded from the input (binary.Read, binary.Uint32 of input bytes, strconv) is compared with a bounding value - a positive constant, a length, a value that was not itself decoded - on every path before it is used; a comparison with zero, with a negative sentinel or with another decoded value bounds nothing; a buffer created with a size computed from the same value, a masked or reduced position and a record field some function of the module bounds when it decodes it are accepted; for fixed-size arrays only a constant up to the array length counts and a loop counter is as large as the bound it runs to; (R11k) a slice is not indexed with the range position of another list that was decoded from the input (XML, JSON, ASN.1, binary) unless a comparison involving the indexed slice's own length dominates, or the slice was made with that list's length; (R11l) when a module function has a return of a nil slice together with a nil error, no caller takes a constant position (index or slice bound) of that result unless a test of its length or nil-ness lies on every path from the call; (R11m) element k (a constant) of a slice field of a record filled by decoding, or of a slice field that is only ever grown with append, is taken only if the function, or a module function called by it from which the record may come, compares the length of that field with a constant in a branch, or the field was stored with a fixed length just before; (R11f) code reachable from an unrecovered helper goroutine of the /sign handler never indexes a string or slice at a constant position without a length test; (R11h) a goroutine that consumes the read end of an io.Pipe closes or drains it on every path to its end (otherwise a reader that stops early leaves the writer blocked: a hang); (R11i) a slice of pointers allocated with a length and filled conditionally is never returned with its nil tail.",
 			NotDecided:  "absence of index/slice-bounds panics and nil dereferences in general, recursion depth, time complexity, and panics inside dependencies (xz, zip, asn1). `-d=ssa/check_bce` lists thousands of unproven bounds checks in this module; no sound analysis in reach decides them without drowning in false alarms, so they are not claimed.",
 			Assumptions: []string{"any ordering comparison on the quantity counts as a check (a too-weak bound is not detected); field-based aliasing"},
 		},
@@ -94,6 +95,26 @@ func runC11(c *Ctx) {
 		}
 		return out
 	})
+	c.Rule("R11l", "the result of a function that can return (nil, nil) is not indexed at a constant position by a caller that tested the error only", 0)
+	for _, f := range nilResultIndexed(p) {
+		c.Check(f.OK, "R11l", f.Key, f.Pos, "length or nil-ness tested first", f.Detail, f.Path...)
+		if !f.OK {
+			if fn := p.funcByName(f.Key); fn != nil {
+				defectFns[fn] = f.Key
+			}
+		}
+	}
+	c.runControl("R11l nil result control (ctl/idxin.Tag)", "idxin.Tag", nilResultIndexed)
+	c.Rule("R11m", "a fixed element of a list filled from the input is taken only after the list's length was tested", 6)
+	for _, f := range emptyListIndexed(p, t) {
+		c.Check(f.OK, "R11m", f.Key, f.Pos, f.Detail, f.Detail)
+		if !f.OK {
+			if fn := p.funcByName(f.Key); fn != nil {
+				defectFns[fn] = f.Key
+			}
+		}
+	}
+	c.runControl("R11m empty list control (ctl/idxin.First)", "idxin.First", func(cp *Prog) []gFinding { return emptyListIndexed(cp, newTaintEngine(cp)) })
 	c.runControl("R11j unchecked position control (ctl/idxin.Parse)", "idxin.Parse", func(cp *Prog) []gFinding {
 		var out []gFinding
 		for _, f := range newTaintEngine(cp).scanIndex() {
@@ -1093,4 +1114,394 @@ func nilHoles(p *Prog) (out []gFinding) {
 		}
 	}
 	return
+}
+
+// nilResultIndexed implements R11l: a module function that can return (nil, nil) - an empty
+// result together with a nil error - and a caller that tests only the error and then indexes the
+// result at a constant position.
+func nilResultIndexed(p *Prog) (out []gFinding) {
+	// functions with a success return whose slice result is the nil constant
+	nilOK := map[*ssa.Function]map[int]bool{}
+	for _, fn := range p.Funcs {
+		ei := errResultIndex(fn.Signature)
+		if ei < 0 {
+			continue
+		}
+		for _, r := range returnsOf(fn) {
+			if ei >= len(r.Results) {
+				continue
+			}
+			if k, ok := r.Results[ei].(*ssa.Const); !ok || !k.IsNil() {
+				continue
+			}
+			for i, rv := range r.Results {
+				if i == ei {
+					continue
+				}
+				if _, isSlice := rv.Type().Underlying().(*types.Slice); !isSlice {
+					continue
+				}
+				if k, ok := rv.(*ssa.Const); ok && k.IsNil() {
+					if nilOK[fn] == nil {
+						nilOK[fn] = map[int]bool{}
+					}
+					nilOK[fn][i] = true
+				}
+			}
+		}
+	}
+	for _, fn := range p.Funcs {
+		n := 0
+		for _, b := range fn.Blocks {
+			for _, in := range b.Instrs {
+				ex, ok := in.(*ssa.Extract)
+				if !ok {
+					continue
+				}
+				call, ok := ex.Tuple.(*ssa.Call)
+				if !ok {
+					continue
+				}
+				sc := call.Common().StaticCallee()
+				if sc == nil || !nilOK[sc][ex.Index] {
+					continue
+				}
+				// every such return may be ruled out by the constants this call passes (`if n == 0 { return nil, nil }` called with 64)
+				if nilReturnsInfeasible(sc, ex.Index, call) {
+					continue
+				}
+				// uses of the result at a constant position
+				vals := map[ssa.Value]bool{ex: true}
+				for changed := true; changed; {
+					changed = false
+					for v := range vals {
+						refs := v.Referrers()
+						if refs == nil {
+							continue
+						}
+						for _, r := range *refs {
+							if ph, ok := r.(*ssa.Phi); ok && !vals[ph] {
+								vals[ph] = true
+								changed = true
+							}
+							// a variable whose address is taken lives in a cell: its loads stand for it
+							if st, ok := r.(*ssa.Store); ok && st.Val == v {
+								if a, ok := st.Addr.(*ssa.Alloc); ok {
+									for _, ar := range *a.Referrers() {
+										if l, ok := ar.(*ssa.UnOp); ok && l.Op == token.MUL && !vals[l] {
+											vals[l] = true
+											changed = true
+										}
+									}
+								}
+							}
+						}
+					}
+				}
+				for v := range vals {
+					refs := v.Referrers()
+					if refs == nil {
+						continue
+					}
+					for _, r := range *refs {
+						var at ssa.Instruction
+						switch x := r.(type) {
+						case *ssa.IndexAddr:
+							if x.X == v {
+								if _, isK := constInt(x.Index); isK {
+									at = x
+								}
+							}
+						case *ssa.Slice:
+							if x.X == v && ((x.Low != nil && !isIntConst(x.Low, 0)) || x.High != nil) {
+								if (x.Low == nil || isConstVal(x.Low)) && (x.High == nil || isConstVal(x.High)) {
+									at = x
+								}
+							}
+						}
+						if at == nil {
+							continue
+						}
+						n++
+						key := fmt.Sprintf("%s uses result of %s#%d", p.FName(fn), p.FName(sc), n)
+						// a test of the length (or of nil-ness) of one of the values on every path?
+						del := map[edge]bool{}
+						for _, blk := range fn.Blocks {
+							ifi, ok := blk.Instrs[len(blk.Instrs)-1].(*ssa.If)
+							if !ok {
+								continue
+							}
+							bo, ok := ifi.Cond.(*ssa.BinOp)
+							if !ok {
+								continue
+							}
+							tests := false
+							for _, side := range []ssa.Value{bo.X, bo.Y} {
+								if c2, ok := stripConv(side).(*ssa.Call); ok {
+									if bi, ok := c2.Call.Value.(*ssa.Builtin); ok && bi.Name() == "len" && vals[c2.Call.Args[0]] {
+										tests = true
+									}
+								}
+								if vals[side] {
+									tests = true // compared with nil
+								}
+							}
+							if tests {
+								for si := range blk.Succs {
+									del[edge{blk.Index, si}] = true
+								}
+							}
+						}
+						pred := map[int]int{}
+						seen := reachAfter(fn, call, del, pred)
+						unguarded := seen[at.Block().Index] || at.Block() == call.Block()
+						out = append(out, gFinding{Key: key, Pos: p.Pos(at.Pos()), OK: !unguarded, Path: p.witness(fn, pred, at.Block().Index),
+							Detail: fmt.Sprintf("%s can return a nil slice together with a nil error (it has such a return), and this caller, having tested the error only, takes a constant position of the result: the input that makes the callee return nothing makes this panic", p.FName(sc))})
+					}
+				}
+			}
+		}
+	}
+	return out
+}
+
+func isConstVal(v ssa.Value) bool {
+	_, ok := v.(*ssa.Const)
+	return ok
+}
+
+// nilReturnsInfeasible: every (nil, nil) return of sc sits behind a test of a parameter against a
+// constant that the constant argument of this call decides the other way.
+func nilReturnsInfeasible(sc *ssa.Function, ri int, call *ssa.Call) bool {
+	ei := errResultIndex(sc.Signature)
+	args := call.Common().Args
+	for _, r := range returnsOf(sc) {
+		if ei >= len(r.Results) || ri >= len(r.Results) {
+			return false
+		}
+		ke, ok1 := r.Results[ei].(*ssa.Const)
+		kr, ok2 := r.Results[ri].(*ssa.Const)
+		if !ok1 || !ok2 || !ke.IsNil() || !kr.IsNil() {
+			continue
+		}
+		ruledOut := false
+		for _, d := range sc.Blocks {
+			if d == r.Block() || !d.Dominates(r.Block()) {
+				continue
+			}
+			ifi, ok := d.Instrs[len(d.Instrs)-1].(*ssa.If)
+			if !ok {
+				continue
+			}
+			bo, ok := ifi.Cond.(*ssa.BinOp)
+			if !ok {
+				continue
+			}
+			pa, isP := bo.X.(*ssa.Parameter)
+			k, isK := constInt(bo.Y)
+			if !isP || !isK {
+				continue
+			}
+			idx := -1
+			for i, p2 := range sc.Params {
+				if p2 == pa {
+					idx = i
+				}
+			}
+			if idx < 0 || idx >= len(args) {
+				continue
+			}
+			a, isA := constInt(args[idx])
+			if !isA {
+				continue
+			}
+			var holds bool
+			switch bo.Op {
+			case token.EQL:
+				holds = a == k
+			case token.NEQ:
+				holds = a != k
+			case token.LSS:
+				holds = a < k
+			case token.LEQ:
+				holds = a <= k
+			case token.GTR:
+				holds = a > k
+			case token.GEQ:
+				holds = a >= k
+			default:
+				continue
+			}
+			onTrue := d.Succs[0] == r.Block() || d.Succs[0].Dominates(r.Block())
+			onFalse := d.Succs[1] == r.Block() || d.Succs[1].Dominates(r.Block())
+			if (onTrue && !onFalse && !holds) || (onFalse && !onTrue && holds) {
+				ruledOut = true
+			}
+		}
+		if !ruledOut {
+			return false
+		}
+	}
+	return true
+}
+
+// c11ListExceptions: constant-position reads of a list the rule cannot see the length of, each
+// confirmed by reading.
+var c11ListExceptions = map[string]string{
+	"lib/pkcs9.TimestampAndMarshal lib/pkcs7.SignedData.SignerInfos": "the SignedData is the one SignatureBuilder.Sign just built (every caller passes its result), which always holds exactly the SignerInfo of the signing key",
+}
+
+// emptyListIndexed implements R11m: a list that comes out of decoding (a slice field of a record
+// filled by asn1/xml/json/plist/binary decoding) or that is only ever grown with append while
+// parsing may be empty. Taking element k of it needs a test of its length: in the function, in a
+// function it was obtained from, or by construction (the list was stored with a fixed length just
+// before).
+func emptyListIndexed(p *Prog, t *taintEngine) (out []gFinding) {
+	// (b) fields whose every store is an append to themselves or nil
+	type fkey struct{ tn, f string }
+	appendOnly := map[fkey]bool{}
+	other := map[fkey]bool{}
+	for _, fn := range p.Funcs {
+		for _, b := range fn.Blocks {
+			for _, in := range b.Instrs {
+				st, ok := in.(*ssa.Store)
+				if !ok {
+					continue
+				}
+				tn, f, _ := p.fieldAddr(st.Addr)
+				if tn == "" {
+					continue
+				}
+				if _, isSlice := st.Val.Type().Underlying().(*types.Slice); !isSlice {
+					continue
+				}
+				k := fkey{strings.TrimPrefix(tn, "*"), f}
+				isAppend := false
+				if call, ok := st.Val.(*ssa.Call); ok {
+					if bi, ok := call.Call.Value.(*ssa.Builtin); ok && bi.Name() == "append" {
+						if t2, f2, _ := p.fieldLoad(call.Call.Args[0]); strings.TrimPrefix(t2, "*") == k.tn && f2 == k.f {
+							isAppend = true
+						}
+					}
+				}
+				if c, ok := st.Val.(*ssa.Const); ok && c.IsNil() {
+					isAppend = true
+				}
+				if isAppend {
+					appendOnly[k] = true
+				} else {
+					other[k] = true
+				}
+			}
+		}
+	}
+	candidate := func(tn, f string) bool {
+		tn = strings.TrimPrefix(tn, "*")
+		if _, isWire := t.wire[tn]; isWire {
+			return true
+		}
+		k := fkey{tn, f}
+		return appendOnly[k] && !other[k]
+	}
+	// functions that test the length of T.F in a branch condition (range loop conditions excepted)
+	testsLen := func(fn *ssa.Function, tn, f string) bool {
+		for _, b := range fn.Blocks {
+			ifi, ok := b.Instrs[len(b.Instrs)-1].(*ssa.If)
+			if !ok {
+				continue
+			}
+			bo, ok := ifi.Cond.(*ssa.BinOp)
+			if !ok {
+				continue
+			}
+			for i, side := range []ssa.Value{bo.X, bo.Y} {
+				call, ok := stripConv(side).(*ssa.Call)
+				if !ok {
+					continue
+				}
+				bi, ok := call.Call.Value.(*ssa.Builtin)
+				if !ok || bi.Name() != "len" {
+					continue
+				}
+				t2, f2, _ := p.fieldLoad(call.Call.Args[0])
+				if strings.TrimPrefix(t2, "*") != tn || f2 != f {
+					continue
+				}
+				// `i+1 < len(list)` of a range loop is not a test of emptiness for the code after the loop
+				otherSide := bo.Y
+				if i == 1 {
+					otherSide = bo.X
+				}
+				if _, isK := otherSide.(*ssa.Const); !isK {
+					continue
+				}
+				return true
+			}
+		}
+		return false
+	}
+	var calleeTests func(fn *ssa.Function, tn, f string, depth int, seen map[*ssa.Function]bool) bool
+	calleeTests = func(fn *ssa.Function, tn, f string, depth int, seen map[*ssa.Function]bool) bool {
+		if depth > 3 || seen[fn] {
+			return false
+		}
+		seen[fn] = true
+		for _, b := range fn.Blocks {
+			for _, in := range b.Instrs {
+				ci, ok := in.(ssa.CallInstruction)
+				if !ok {
+					continue
+				}
+				sc := ci.Common().StaticCallee()
+				if sc == nil || len(sc.Blocks) == 0 || !p.InModule(pkgOf(sc)) {
+					continue
+				}
+				if testsLen(sc, tn, f) || calleeTests(sc, tn, f, depth+1, seen) {
+					return true
+				}
+			}
+		}
+		return false
+	}
+	for _, fn := range p.Funcs {
+		n := map[string]int{}
+		for _, b := range fn.Blocks {
+			for _, in := range b.Instrs {
+				ia, ok := in.(*ssa.IndexAddr)
+				if !ok {
+					continue
+				}
+				if _, isSlice := ia.X.Type().Underlying().(*types.Slice); !isSlice {
+					continue
+				}
+				k, isK := constInt(ia.Index)
+				if !isK {
+					continue
+				}
+				tn, f, _ := p.fieldLoad(ia.X)
+				if tn == "" || !candidate(tn, f) {
+					continue
+				}
+				tn = strings.TrimPrefix(tn, "*")
+				base := fmt.Sprintf("%s %s.%s", p.FName(fn), tn, f)
+				n[base]++
+				key := fmt.Sprintf("%s[%d]#%d", base, k, n[base])
+				if why, ok := c11ListExceptions[base]; ok {
+					out = append(out, gFinding{Key: key, Pos: p.Pos(ia.Pos()), OK: true, Detail: "exception: " + why})
+					continue
+				}
+				// by construction: the list was stored with a known length just before
+				if l, ok := ia.X.(*ssa.UnOp); ok {
+					if v := p.lastStoreBefore(l); v != nil && staticLenAtLeast(v, k+1) {
+						out = append(out, gFinding{Key: key, Pos: p.Pos(ia.Pos()), OK: true, Detail: "stored with a fixed length just before"})
+						continue
+					}
+				}
+				ok2 := testsLen(fn, tn, f) || calleeTests(fn, tn, f, 0, map[*ssa.Function]bool{})
+				out = append(out, gFinding{Key: key, Pos: p.Pos(ia.Pos()), OK: ok2,
+					Detail: fmt.Sprintf("element %d of %s.%s is taken, a list that is filled from the input and may be empty; neither this function nor one it obtained the record from compares its length with a constant: an input without such an element makes this panic", k, tn, f)})
+			}
+		}
+	}
+	return out
 }
